@@ -77,6 +77,9 @@ func (o Opts) norm() Opts {
 func Pair(o Opts) *rapid.Generator[Case] {
 	o = o.norm()
 	return rapid.Custom(func(t *rapid.T) Case {
+		if !o.NoDynamic && len(o.Only) == 0 && o.SameShare < 100 && rapid.IntRange(0, 15).Draw(t, "composedshape") == 0 {
+			return Composed(t)
+		}
 		ty := gen.Type(o.Type).Draw(t, "srctype")
 		v := gen.Value(ty, o.Val).Draw(t, "value")
 		return Derive(t, v, o)
@@ -612,4 +615,78 @@ func exact(t *rapid.T, ty spec.T, o gen.ValOpts, root bool) spec.V {
 		}
 	}
 	return v
+}
+
+// Composed draws a tuple whose members mix lists and tuples (or an
+// object whose attributes mix maps and objects) of convertible element types,
+// to be converted to a collection of the placeholder element type: the
+// converter must unify the member types, which goes through the two-step
+// "structural type as collection" paths of the unifier, working on the member
+// types of the INPUT value's own type.
+func Composed(t *rapid.T) Case {
+	pairs := [][2]spec.T{{spec.String, spec.Number}, {spec.Number, spec.Number}, {spec.String, spec.Bool}, {spec.String, spec.String}, {spec.List(spec.String), spec.Tuple(spec.Number)}}
+	pr := rapid.SampledFrom(pairs).Draw(t, "elempair")
+	leaf := func(ty spec.T) spec.V {
+		return gen.Value(ty, gen.ValOpts{Simple: true, RootKnown: true, MaxElems: 2}).Draw(t, "leaf")
+	}
+	state := func(v spec.V) spec.V {
+		switch rapid.IntRange(0, 5).Draw(t, "state") {
+		case 0:
+			return spec.NullOf(v.T)
+		case 1:
+			return spec.UnknownOf(v.T)
+		}
+		return v
+	}
+	var members []spec.V
+	var keys []string
+	objectForm := rapid.IntRange(0, 2).Draw(t, "objectform") == 0
+	n := rapid.IntRange(2, 3).Draw(t, "members")
+	for i := 0; i < n; i++ {
+		var m spec.V
+		coll := i%2 == 0
+		if rapid.IntRange(0, 3).Draw(t, "flip") == 0 {
+			coll = !coll
+		}
+		k := rapid.IntRange(0, 2).Draw(t, "len")
+		switch {
+		case objectForm && coll:
+			m = spec.V{T: spec.Map(pr[0]), St: spec.Known}
+			for j := 0; j < k; j++ {
+				m.Keys = append(m.Keys, []string{"p", "q"}[j])
+				m.Elems = append(m.Elems, leaf(pr[0]))
+			}
+		case objectForm:
+			m = spec.V{T: spec.Object(), St: spec.Known}
+			for j := 0; j < k+1; j++ {
+				m.Keys = append(m.Keys, []string{"p", "r", "s"}[j])
+				m.Elems = append(m.Elems, leaf(pr[1]))
+			}
+			m = m.Retype()
+		case coll:
+			m = spec.V{T: spec.List(pr[0]), St: spec.Known}
+			for j := 0; j < k; j++ {
+				m.Elems = append(m.Elems, leaf(pr[0]))
+			}
+		default:
+			m = spec.V{T: spec.Tuple(), St: spec.Known}
+			for j := 0; j < k+1; j++ {
+				m.Elems = append(m.Elems, leaf(pr[1]))
+			}
+			m = m.Retype()
+		}
+		members = append(members, state(m))
+		keys = append(keys, []string{"a", "b", "c"}[i])
+	}
+	var root spec.V
+	var target spec.T
+	if objectForm {
+		root = spec.V{T: spec.Object(), St: spec.Known, Keys: keys, Elems: members}.Retype()
+		target = spec.Map(spec.Dynamic)
+	} else {
+		root = spec.V{T: spec.Tuple(), St: spec.Known, Elems: members}.Retype()
+		target = rapid.SampledFrom([]spec.T{spec.List(spec.Dynamic), spec.Set(spec.Dynamic)}).Draw(t, "target")
+	}
+	root = state(root)
+	return Case{V: root, Target: target, Edits: []string{"composed"}}
 }
